@@ -410,12 +410,16 @@ package compiler
 // (so no two-branch union with a null branch is returned); any other union is returned as it was.
 //@ func (*DisjunctionWithNullToOptional).processDisjunction
 //@   property C06
-//@   requires pass != nil && def.Kind == ast.KindDisjunction
-//@   modifies spare-capacity
-//@   ensures  noerr: result.1 == nil
-//@   ensures  other: !(len(def.Disjunction.Branches) == 2 && (isNull(def.Disjunction.Branches[0]) || isNull(def.Disjunction.Branches[1]))) ==> result.0 == def
-//@   ensures  left: len(def.Disjunction.Branches) == 2 && isNull(def.Disjunction.Branches[1]) && !isNull(def.Disjunction.Branches[0]) ==> result.0.Nullable && result.0.Kind == old(def.Disjunction.Branches[0].Kind) && with(with(result.0, "Nullable", old(def.Disjunction.Branches[0].Nullable)), "PassesTrail", old(def.Disjunction.Branches[0].PassesTrail)) == old(def.Disjunction.Branches[0])
-//@   ensures  right: len(def.Disjunction.Branches) == 2 && isNull(def.Disjunction.Branches[0]) && !isNull(def.Disjunction.Branches[1]) ==> result.0.Nullable && result.0.Kind == old(def.Disjunction.Branches[1].Kind) && with(with(result.0, "Nullable", old(def.Disjunction.Branches[1].Nullable)), "PassesTrail", old(def.Disjunction.Branches[1].PassesTrail)) == old(def.Disjunction.Branches[1])
+//@   requires pass != nil && visitor != nil && def.Kind == ast.KindDisjunction
+//@   ensures  other: result.1 == nil && !(old(len(def.Disjunction.Branches)) == 2 && old(isNull(def.Disjunction.Branches[0]) || isNull(def.Disjunction.Branches[1]))) ==> result.0.Kind == ast.KindDisjunction && result.0.Disjunction == def.Disjunction
+//@   ensures  descended: result.1 == nil && !(old(len(def.Disjunction.Branches)) == 2 && old(isNull(def.Disjunction.Branches[0]) || isNull(def.Disjunction.Branches[1]))) ==> ncalls("compiler.(*Visitor).VisitType") >= old(ncalls("compiler.(*Visitor).VisitType")) + old(len(def.Disjunction.Branches))
+//@   ensures  first: result.1 == nil && old(len(def.Disjunction.Branches)) >= 1 ==> called("compiler.(*Visitor).VisitType", visitor, schema, old(def.Disjunction.Branches[0])) || (old(len(def.Disjunction.Branches)) == 2 && old(isNull(def.Disjunction.Branches[0])))
+//@   ensures  left: result.1 == nil && old(len(def.Disjunction.Branches) == 2 && isNull(def.Disjunction.Branches[1]) && !isNull(def.Disjunction.Branches[0])) ==> result.0.Nullable && called("compiler.(*Visitor).VisitType", visitor, schema, old(def.Disjunction.Branches[0]))
+//@   ensures  right: result.1 == nil && old(len(def.Disjunction.Branches) == 2 && isNull(def.Disjunction.Branches[0]) && !isNull(def.Disjunction.Branches[1])) ==> result.0.Nullable && called("compiler.(*Visitor).VisitType", visitor, schema, old(def.Disjunction.Branches[1]))
+//@   loop 0:
+//@     invariant counted: ncalls("compiler.(*Visitor).VisitType") >= old(ncalls("compiler.(*Visitor).VisitType")) + $i + 1
+//@     invariant first: $i >= 0 ==> called("compiler.(*Visitor).VisitType", visitor, schema, old(def.Disjunction.Branches[0]))
+//@     invariant untouched: $i < 0 ==> len(disjunction.Branches) >= 1 ==> disjunction.Branches[0] == old(def.Disjunction.Branches[0])
 //
 // prefix_enum_values (Go): every member keeps its type and value; its name becomes the camel-cased
 // object name followed by a non-empty suffix derived from the member.
